@@ -49,6 +49,13 @@ def main():
     run(["git", "-C", "/repo", "worktree", "remove", "--force", vdir])
     rc, o = run(["git", "-C", "/repo", "worktree", "add", "-q", "--detach", vdir, "HEAD"])
     meta = {"id": sid, "property": prop, "ran": []}
+    try:  # annotations written by hand survive a re-validation
+        prev = json.load(open(os.path.join(out, "meta.json")))
+        for k in ("summary", "first_validation", "disposition", "strengthening"):
+            if k in prev:
+                meta[k] = prev[k]
+    except Exception:
+        pass
     try:
         rc, o = run(["git", "apply", os.path.join(out, "patch.diff")], cwd=vdir)
         if rc != 0:
